@@ -284,12 +284,35 @@ class GhostDG:
         if name == "add_edge":
             self.on_edge(ex, args[0], args[1], kw.get("latency"))
             return None
+        if name == "has_edge" and self.prev is not None:
+            return self.prev(ex, "has", args[0], args[1])
         raise Unsupported("DiGraph." + name)
+
+    prev = None  # contract-supplied view of what the graph holds so far for a pair: prev(ex, "has"|"latency", a, b)
 
     def sym_getattr(self, ex, attr):
         if attr == "nodes":
             return GhostNodes()
+        if attr == "edges" and self.prev is not None:
+            return GhostEdges(self)
         return PyMethod(self, attr)
+
+
+class GhostEdges:
+    def __init__(self, dg):
+        self.dg = dg
+
+    def sym_getitem(self, ex, k):
+        a, b = k
+        dg = self.dg
+
+        class Attrs:
+            def sym_getitem(self, ex_, key):
+                if key == "latency":
+                    return dg.prev(ex_, "latency", a, b)
+                raise Unsupported("edge attribute " + str(key))
+
+        return Attrs()
 
 
 class GhostNodes:
@@ -380,6 +403,9 @@ def create_dg_unit(res):
                 f = fwd if mode == "full" else z3.RealVal(0)
                 p_ = pidx if mode == "full" else z3.RealVal(1)
                 want = z3.If(tag == 1, p_, z3.If(tag == 2, plain + f, plain))
+            # several dependencies between the same two instructions share one edge: it carries the LARGEST of their weights
+            # (ghost view of the graph: EP(i,k) = an edge i -> consumer exists already, WP(i,k) = its weight)
+            want = z3.If(EP(i, k), z3.If(WP(i, k) > want, WP(i, k), want), want)
             ex_.oblige("dep-edge", z3.And(at == z3.ToReal(ln), bt == z3.ToReal(H.line(dep_ref)), wt == want))
 
     class Outer:
@@ -403,7 +429,22 @@ def create_dg_unit(res):
     ex.loop_hooks[("create_DG", 1)] = Inner()
     ex.invariants[("create_DG", 0)] = lambda ex_, env, k: z3.BoolVal(True)
     ex.invariants[("create_DG", 1)] = lambda ex_, env, k: z3.BoolVal(True)
-    ex.abstract["nx.DiGraph"] = lambda ex_, so, a, kw: GhostDG(on_edge)
+    EP, WP = z3.Function("edge_exists_before", I, I, B), z3.Function("edge_weight_before", I, I, R)
+
+    def prev(ex_, what, a, b):
+        i, k = state["i"], state["dep"]
+        if k is None:
+            raise Unsupported("graph queried outside the dependency loop")
+        dep_ref = state["later"].at(ypos(i, k)).t
+        ex_.oblige("edge-query/about-this-pair", z3.And(real_term(a) == z3.ToReal(H.line(z3.Select(karr, i))), real_term(b) == z3.ToReal(H.line(dep_ref))))
+        return SBool(EP(i, k)) if what == "has" else SNum(WP(i, k), False)
+
+    def mkdg(ex_, so, a, kw):
+        g = GhostDG(on_edge)
+        g.prev = prev
+        return g
+
+    ex.abstract["nx.DiGraph"] = mkdg
     q, r_ = z3.Ints("q r_")
     # type invariant established by assign_tp_lt (C08 postcondition): every analysed line has a numeric latency_wo_load
     pre = [KL >= 0, z3.ForAll([q], ylen(q) >= 0), z3.ForAll([q], z3.Implies(z3.And(has_ld(q), z3.Not(is_ld(q))), haslwl(q))),
